@@ -221,6 +221,19 @@ func checkC18(p *Prog, res *Result, tier string) {
 					why = "the fetch has no error result"
 					continue
 				}
+				// the adopted revision reaches the follower unrounded: no floating-point value on its way (a JSON
+				// number decoded into interface{} is a float64, exact only up to 2^53 - revisions are far above)
+				if derivesFromCallArgs(p, argForSigParam(c, 0), func(v ssa.Value) bool {
+					cv, ok := v.(*ssa.Convert)
+					if !ok {
+						return false
+					}
+					bt, ok := cv.X.Type().Underlying().(*types.Basic)
+					return ok && bt.Info()&types.IsFloat != 0
+				}) {
+					why = "the revision adopted from the leader passes through a floating-point value: above 2^53 it is rounded, and a follower that rounds down serves a snapshot without the leader's latest committed writes"
+					continue
+				}
 				ferr := extractsOf(fetch)[ei]
 				for _, cf := range dominatingFacts(c.Block()) {
 					if cf.X == nil {
@@ -287,6 +300,10 @@ func checkPublisher(p *Prog, r *Roles, lr *leaderRoles, res *Result) {
 		c, _, ok := extractOf(val)
 		if !ok || !(p.isCallToMethod(c, r.BGetCur)) {
 			res.bad("C18-R5", construct, p.pos(at.Pos()), "the published revision is not Backend.GetCurrentRevision()")
+			continue
+		}
+		if lr.leaderKnown(p, at.Block(), false) && !lr.leaderKnown(p, c.Block(), false) {
+			res.bad("C18-R5", construct, p.pos(c.Pos()), "the committed revision is sampled before leadership is established: a node that has just won the election can sample its follower-era revision, finish its start callback, pass the IsLeader() test and publish the stale revision - the follower adopts it and serves a snapshot that misses committed writes")
 			continue
 		}
 		if lr.leaderKnown(p, at.Block(), false) {
@@ -388,7 +405,27 @@ func checkPublisher(p *Prog, r *Roles, lr *leaderRoles, res *Result) {
 					good = true
 				}
 			}
-			if good {
+			// the revision handed back reaches the follower unrounded: no floating-point value on its way (a JSON number
+			// decoded into interface{} is a float64, exact only up to 2^53 - production revisions are far above)
+			rounded := false
+			for i, rv := range ret.Results {
+				if i == ei || !isUint64(rv.Type()) {
+					continue
+				}
+				if derivesFromCallArgs(p, rv, func(v ssa.Value) bool {
+					cv, ok := v.(*ssa.Convert)
+					if !ok {
+						return false
+					}
+					bt, ok := cv.X.Type().Underlying().(*types.Basic)
+					return ok && bt.Info()&types.IsFloat != 0
+				}) {
+					rounded = true
+				}
+			}
+			if good && rounded {
+				res.bad("C18-R5", construct, p.pos(ret.Pos()), "the revision fetched from the leader passes through a floating-point value: above 2^53 it is rounded, and a follower that rounds down serves a snapshot without the leader's latest committed writes")
+			} else if good {
 				res.ok("C18-R5", construct, p.pos(ret.Pos()), "success is returned only when the leader answered 200")
 			} else {
 				res.bad("C18-R5", construct, p.pos(ret.Pos()), "the leader fetch reports success without having established StatusCode == 200")
